@@ -117,7 +117,32 @@ func buildHandler(cfg *config.Config, lb *loadbalancer.LoadBalancer) (http.Handl
 	// Add request context middleware
 	handler = logging.RequestContextMiddleware(cfg.Logging)(handler)
 
+	// Apply the end-to-end handler timeout
+	handlerTimeout := time.Duration(cfg.Server.Timeouts.Handler) * time.Second
+	if handlerTimeout == 0 {
+		handlerTimeout = 30 * time.Second // Default: documented end-to-end request timeout
+	}
+	handler = withHandlerTimeout(handlerTimeout, handler)
+
 	return handler, nil
+}
+
+// withHandlerTimeout bounds the whole handling of a request (server.timeouts.handler).
+// The deadline is put on the request context: the backend dial, the wait for the
+// response and the copy of the response body all observe it, so a backend that
+// stalls after sending its headers can no longer hold a request (and a client
+// connection) forever. Responses are not buffered, unlike http.TimeoutHandler.
+// Upgraded connections (WebSocket) are long-lived by design and are exempt.
+func withHandlerTimeout(timeout time.Duration, next http.Handler) http.Handler {
+	return http.HandlerFunc(func(w http.ResponseWriter, r *http.Request) {
+		if r.Header.Get("Upgrade") != "" {
+			next.ServeHTTP(w, r)
+			return
+		}
+		ctx, cancel := context.WithTimeout(r.Context(), timeout)
+		defer cancel()
+		next.ServeHTTP(w, r.WithContext(ctx))
+	})
 }
 
 // createHTTPServer creates and configures the main HTTP server
